@@ -128,7 +128,10 @@ Record write_req := {
   wrActions : list waction; wrProof : bool;
   wrSectors : N;           (* Revision.Filesize / SectorSize *)
   wrPayOk : bool;          (* Revise + ValidateRevision accepted *)
-  wrSigOk : bool           (* renter signature over the new revision *)
+  wrSigOk : bool;          (* renter signature over the new revision *)
+  wrCommitOk : bool        (* updater.Commit: the store accepted the new roots (it refuses a root
+                              whose sector was never stored, which is what the update action of
+                              rpcWrite produces: it writes the patched sector under the old root) *)
 }.
 
 Definition rpc_write (s : rstate) (q : write_req) : rstate * res unit :=
@@ -142,6 +145,7 @@ Definition rpc_write (s : rstate) (q : write_req) : rstate * res unit :=
   match (if wrProof q then diff_proof (wrActions q) else Ok tt) with
   | Panic => (s, Panic) | Err e => (s, Err e) | Ok _ =>
   if negb (wrSigOk q) then (s, Err EInvalid)
+  else if negb (wrCommitOk q) then (s, Err EOther)
   else (bump s roots', Ok tt)
   end end end.
 
@@ -234,7 +238,7 @@ Definition rstep (h : hs) (o : rop) : hs * robs :=
   | RFormKey alg keylen =>
       (h, RRes (lift1 (form_renter_key alg keylen) (fun _ => [])) (rrev (hsC h)) (rroots (hsC h)))
   | RRenewCosts base sp cp fs ce ne =>
-      (h, RRes (lift1 (renewal_costs base sp cp fs ce ne) (fun p => [fst p; snd p])) (rrev (hsC h)) (rroots (hsC h)))
+      (h, RRes (lift1 (renewal_costs base sp cp fs ce ne) (fun _ => [])) (rrev (hsC h)) (rroots (hsC h)))
   | RFund q =>
       let '(f', r) := rpc_fund_account (hsF h) q in
       ({| hsC := {| rrev := rrev (hsC h) + (frev f' - frev (hsF h)); rroots := rroots (hsC h) |}; hsF := f' |},
